@@ -530,9 +530,9 @@ func (c15) Exec(sc *sim.Scenario, env *sim.Env) *sim.Violation {
 			if k%5 == 1 {
 				// listing switched off: a nil writer. Nothing to write to, nothing written anywhere
 				// (the process's standard output is watched by the globals snapshot, C18)
-				p, pmsg, err := doListing(e, kind, nil)
-				if p || err != nil {
-					return &sim.Violation{Oracle: "listing_panic", Step: i, Msg: fmt.Sprintf("listing (kind %d) with a nil writer: panic=%v %s err=%v", kind, p, pmsg, err)}
+				// (whether the call then reports an error is not fixed by any property)
+				if p, pmsg, _ := doListing(e, kind, nil); p {
+					return &sim.Violation{Oracle: "listing_panic", Step: i, Msg: fmt.Sprintf("listing (kind %d) with a nil writer panicked: %s", kind, pmsg)}
 				}
 				st.Probe("listing_to_nil_writer")
 			}
